@@ -157,27 +157,21 @@ theorem inv_commit {s s' : St} (hs : Inv s) (hc : Core s') : Inv (commit s s').1
 
 /-! ### streams -/
 
-theorem inv_addStream {s : St} (hs : Inv s) (dir title : String) : Inv (addStream s dir title).1 := by
-  unfold addStream
-  split
-  · exact hs
-  · next hany =>
-    obtain ⟨c, u⟩ := hs
-    have hdir : dir ∉ s.streams.map (·.dir) := by
-      intro h
-      obtain ⟨x, hx, e⟩ := List.mem_map.mp h
-      exact hany (List.any_eq_true.mpr ⟨x, hx, by simp [e]⟩)
-    refine ⟨{ c with streamPk := ?_, fileStream := ?_, periodStream := ?_, tref := ?_ },
-            { u with streamDir := ?_ }⟩
-    · exact nodup_map_snoc _ c.streamPk (fresh_not_mem _)
-    · intro f hf; simp only [List.map_append, List.mem_append]; exact Or.inl (c.fileStream f hf)
-    · intro p hp; simp only [List.map_append, List.mem_append]; exact Or.inl (c.periodStream p hp)
-    · intro st hst n hn
-      simp only [List.mem_append, List.mem_singleton] at hst
-      rcases hst with hst | rfl
-      · exact c.tref st hst n hn
-      · simp at hn
-    · exact nodup_map_snoc _ u.streamDir hdir
+theorem inv_appendStream {s : St} (hs : Inv s) (dir title : String) (hdir : dir ∉ s.streams.map (·.dir)) :
+    Inv (appendStream s dir title) := by
+  unfold appendStream
+  obtain ⟨c, u⟩ := hs
+  refine ⟨{ c with streamPk := ?_, fileStream := ?_, periodStream := ?_, tref := ?_ },
+          { u with streamDir := ?_ }⟩
+  · exact nodup_map_snoc _ c.streamPk (fresh_not_mem _)
+  · intro f hf; simp only [List.map_append, List.mem_append]; exact Or.inl (c.fileStream f hf)
+  · intro p hp; simp only [List.map_append, List.mem_append]; exact Or.inl (c.periodStream p hp)
+  · intro st hst n hn
+    simp only [List.mem_append, List.mem_singleton] at hst
+    rcases hst with hst | rfl
+    · exact c.tref st hst n hn
+    · simp at hn
+  · exact nodup_map_snoc _ u.streamDir hdir
 
 theorem inv_editStream {s : St} (hs : Inv s) (spk : Nat) (dir title tref : String) :
     Inv (editStream s spk dir title tref).1 := by
@@ -278,6 +272,32 @@ theorem inv_delStream {s : St} (hs : Inv s) (spk : Nat) : Inv (delStream s spk).
   split
   · exact hs
   · exact ⟨core_dropStream hs.1 spk, uniq_dropStream hs.2 spk⟩
+
+theorem inv_dropDir {s : St} (hs : Inv s) (dir : String) :
+    Inv (dropDir s dir) ∧ dir ∉ (dropDir s dir).streams.map (·.dir) := by
+  unfold dropDir
+  split
+  · next st hst =>
+    obtain ⟨hstm, hstd⟩ := find?_pk_mem hst
+    simp only [beq_iff_eq] at hstd
+    refine ⟨⟨core_dropStream hs.1 st.pk, uniq_dropStream hs.2 st.pk⟩, ?_⟩
+    intro h
+    obtain ⟨x, hx, e⟩ := List.mem_map.mp h
+    simp only [dropStream, List.mem_filter, bne_iff_ne, ne_eq] at hx
+    have := inj_of_nodup_map (·.dir) hs.2.streamDir hx.1 hstm (by simp [e, hstd])
+    subst this
+    exact hx.2 rfl
+  · next hnone =>
+    refine ⟨hs, ?_⟩
+    intro h
+    obtain ⟨x, hx, e⟩ := List.mem_map.mp h
+    have := List.find?_eq_none.mp hnone x hx
+    simp [e] at this
+
+theorem inv_addStream {s : St} (hs : Inv s) (dir title : String) : Inv (addStream s dir title).1 := by
+  unfold addStream
+  obtain ⟨h1, h2⟩ := inv_dropDir hs dir
+  exact inv_appendStream h1 dir title h2
 
 /-! ### keys -/
 
@@ -1226,23 +1246,36 @@ theorem diskOK_mono {s s' : St} (h : DiskOK s)
 theorem diskOK_init : DiskOK init := by
   intro f hf; simp [init] at hf
 
+theorem diskOK_appendStream {s : St} (hs : Inv s) (hd : DiskOK s) (dir title : String) :
+    DiskOK (appendStream s dir title) := by
+  unfold appendStream
+  refine diskOK_mono hd ?_ ?_ ?_ ?_
+  · exact fun f hf => ⟨f, hf, rfl, rfl⟩
+  rotate_left
+  · exact fun b hb => hb
+  · exact fun _ _ h => h
+  intro x hx
+  simp only [List.mem_append, List.mem_singleton] at hx
+  rcases hx with hx | rfl
+  · exact Or.inl ⟨x, hx, rfl, rfl⟩
+  · right
+    intro f hf e
+    exact fresh_not_mem _ (e ▸ hs.1.fileStream f hf)
+
+theorem diskOK_dropStream {s : St} (hd : DiskOK s) (k : Nat) : DiskOK (dropStream s k) := by
+  unfold dropStream
+  exact diskOK_mono hd (fun f hf => ⟨f, (List.mem_filter.mp hf).1, rfl, rfl⟩)
+    (fun x hx => Or.inl ⟨x, (List.mem_filter.mp hx).1, rfl, rfl⟩)
+    (fun b hb => (List.mem_filter.mp hb).1) (fun _ _ h => h)
+
 theorem diskOK_addStream {s : St} (hs : Inv s) (hd : DiskOK s) (dir title : String) :
     DiskOK (addStream s dir title).1 := by
   unfold addStream
+  apply diskOK_appendStream (inv_dropDir hs dir).1
+  unfold dropDir
   split
+  · exact diskOK_dropStream hd _
   · exact hd
-  · refine diskOK_mono hd ?_ ?_ ?_ ?_
-    · exact fun f hf => ⟨f, hf, rfl, rfl⟩
-    rotate_left
-    · exact fun b hb => hb
-    · exact fun _ _ h => h
-    intro x hx
-    simp only [List.mem_append, List.mem_singleton] at hx
-    rcases hx with hx | rfl
-    · exact Or.inl ⟨x, hx, rfl, rfl⟩
-    · right
-      intro f hf e
-      exact fresh_not_mem _ (e ▸ hs.1.fileStream f hf)
 
 theorem diskOK_commit {s s' : St} (hd : DiskOK s) (hd' : DiskOK s') : DiskOK (commit s s').1 := by
   unfold commit; split
